@@ -495,7 +495,7 @@ func runProg(c *ProgCase, n int, gen chooser, rawOK bool, ex *exclusions, journa
 		}
 		c.Focus = f.name
 		p := &pool{eoas: []ethcmn.Address{eoaRich, eoaKeeper, eoaPoor, eoaNone}, others: []ethcmn.Address{accNative, accHollow, accFresh1, accFresh2, preSha, preRipemd, preIdent}}
-		mg = &msgGen{c: gen, r: r, first: true, g: &progGen{c: gen, f: f, p: p, rawOK: rawOK, excluded: excl}}
+		mg = &msgGen{c: gen, r: r, first: true, g: &progGen{c: gen, f: f, p: p, rawOK: rawOK, excluded: excl, ex: ex}}
 	}
 	for i := 0; ; i++ {
 		var s PStep
